@@ -57,7 +57,7 @@ func ParseDirectives(firstLabel string) Directives {
 			return 0, false
 		}
 		switch p {
-		case "ok", "nx", "empty", "tc", "tcs", "silent", "garbage", "close", "rst", "half":
+		case "ok", "nx", "nodata", "empty", "tc", "tcs", "silent", "garbage", "close", "rst", "half":
 			d.Kind = p
 			continue
 		case "fat":
@@ -233,14 +233,20 @@ func BuildReply(name string, qtype, qclass uint16, tag string, serial uint32, d 
 	metaRR := &dns.TXT{Hdr: dns.RR_Header{Name: name, Rrtype: dns.TypeTXT, Class: class, Ttl: ttlOf(0)}, Txt: []string{meta.String()}}
 
 	switch d.Kind {
-	case "nx":
-		m.Rcode = dns.RcodeNameError
+	case "nx", "nodata":
+		if d.Kind == "nx" {
+			m.Rcode = dns.RcodeNameError
+		}
 		s := sub(key, serial, 0)
+		proofTTL := ttlOf(1)
+		if d.NsTTL >= 0 {
+			proofTTL = uint32(d.NsTTL) // the record next to the SOA (an NSEC-like proof, glue) has a life time of its own
+		}
 		m.Ns = append(m.Ns,
 			&dns.SOA{Hdr: dns.RR_Header{Name: parentOf(name), Rrtype: dns.TypeSOA, Class: class, Ttl: ttlOf(0)},
 				Ns: hostName(s, "ns.test."), Mbox: hostName(s[5:], "mbox.test."),
 				Serial: binary.BigEndian.Uint32(s[10:]), Refresh: 7200, Retry: 900, Expire: 86400, Minttl: 60},
-			&dns.TXT{Hdr: dns.RR_Header{Name: parentOf(name), Rrtype: dns.TypeTXT, Class: class, Ttl: ttlOf(1)}, Txt: []string{meta.String()}})
+			&dns.TXT{Hdr: dns.RR_Header{Name: parentOf(name), Rrtype: dns.TypeTXT, Class: class, Ttl: proofTTL}, Txt: []string{meta.String()}})
 		return m
 	case "empty":
 		return m
